@@ -202,6 +202,7 @@ func Options(c gen.Config) *mcap.WriterOptions {
 	switch c.Compression {
 	case "custom":
 		o.Compressor = mcap.NewCustomCompressor(CustomName, &XorCompressor{})
+		o.Compression = mcap.CompressionFormat(c.CustomShadow)
 	default:
 		o.Compression = mcap.CompressionFormat(c.Compression)
 	}
@@ -225,6 +226,7 @@ type Sink struct {
 	// fault injection
 	FailAt    int  // index of the Write to fail; -1 = never
 	Short     bool // fail with a short count + io.ErrShortWrite instead of 0 bytes + error
+	Full      bool // accept every byte of the failing write and still report an error (a destination that reports a deferred failure)
 	Sticky    bool // all later writes fail too
 	Fired     bool
 	FiredCall int
@@ -247,6 +249,10 @@ func (s *Sink) Write(p []byte) (int, error) {
 			s.Fired = true
 			s.FiredCall = s.CurCall
 		}
+		if s.Full {
+			s.Buf.Write(p)
+			return len(p), ErrInjected
+		}
 		if s.Short && len(p) > 0 {
 			n := len(p) / 2
 			s.Buf.Write(p[:n])
@@ -255,6 +261,57 @@ func (s *Sink) Write(p []byte) (int, error) {
 		return 0, ErrInjected
 	}
 	return s.Buf.Write(p)
+}
+
+// AttachmentReader wraps attachment data in one of the reader shapes of gen.Config.AttReader.
+func AttachmentReader(data []byte, mode int) io.Reader {
+	grow := len(data) / 512 // large attachments: at most about 500 reads (every read is one write on the sink)
+	switch mode {
+	case 1:
+		return &dataEOFReader{b: data}
+	case 2:
+		return &stepReader{b: data, step: 1 + grow}
+	case 3:
+		return &stepReader{b: data, step: 7 + grow}
+	}
+	return bytes.NewReader(data)
+}
+
+// dataEOFReader hands out its last bytes together with io.EOF (legal for an io.Reader) and has no WriteTo.
+type dataEOFReader struct {
+	b   []byte
+	pos int
+}
+
+func (d *dataEOFReader) Read(p []byte) (int, error) {
+	if d.pos >= len(d.b) {
+		return 0, io.EOF
+	}
+	n := copy(p, d.b[d.pos:])
+	d.pos += n
+	if d.pos >= len(d.b) {
+		return n, io.EOF
+	}
+	return n, nil
+}
+
+// stepReader delivers at most step bytes per Read and has no WriteTo.
+type stepReader struct {
+	b    []byte
+	pos  int
+	step int
+}
+
+func (d *stepReader) Read(p []byte) (int, error) {
+	if d.pos >= len(d.b) {
+		return 0, io.EOF
+	}
+	if len(p) > d.step {
+		p = p[:d.step]
+	}
+	n := copy(p, d.b[d.pos:])
+	d.pos += n
+	return n, nil
 }
 
 // Call is one writer API call of an execution.
@@ -274,6 +331,9 @@ type WriteResult struct {
 	Sink     *Sink
 	Stats    *mcap.Statistics // writer.Statistics after Close (deep copy)
 	ChunkIdx int              // len(writer.ChunkIndexes)
+	// ProbesIssued / ProbesAccepted: WriteMessage calls on a never-registered channel (Workload.Probes) and
+	// how many of them did not return an error
+	ProbesIssued, ProbesAccepted int
 	Writer   *mcap.Writer
 }
 
@@ -323,9 +383,24 @@ func RunWriter(w *gen.Workload, c gen.Config, sink *Sink, wo *WriteOpts) *WriteR
 	ok := do("header", -1, func() error {
 		return writer.WriteHeader(&mcap.Header{Profile: w.Header.Profile, Library: w.Header.Library})
 	})
+	probe := func(before int) {
+		for k := range w.Probes {
+			if w.Probes[k].Before != before {
+				continue
+			}
+			var err error
+			if p := core.Safe(func() { err = writer.WriteMessage(ToMessage(&w.Probes[k].Msg)) }); p != nil || err == nil {
+				res.ProbesAccepted++
+			}
+			res.ProbesIssued++
+		}
+	}
 	for i := range w.Ops {
 		if !ok && wo.StopOnError {
 			break
+		}
+		if ok {
+			probe(i)
 		}
 		it := &w.Ops[i]
 		var good bool
@@ -338,7 +413,7 @@ func RunWriter(w *gen.Workload, c gen.Config, sink *Sink, wo *WriteOpts) *WriteR
 			good = do("message", i, func() error { return writer.WriteMessage(ToMessage(it.Message)) })
 		case it.Attachment != nil:
 			a := it.Attachment
-			var src io.Reader = bytes.NewReader(a.Data)
+			src := AttachmentReader(a.Data, c.AttReader)
 			size := uint64(len(a.Data))
 			if wo.AttachmentSrc != nil {
 				src, size = wo.AttachmentSrc(a)
@@ -352,6 +427,9 @@ func RunWriter(w *gen.Workload, c gen.Config, sink *Sink, wo *WriteOpts) *WriteR
 			})
 		}
 		ok = ok && good
+	}
+	if ok {
+		probe(len(w.Ops))
 	}
 	do("close", -1, func() error { return writer.Close() })
 	if writer.Statistics != nil {
